@@ -43,7 +43,7 @@ class Arr:
 
     def __getitem__(self, i):
         if self.z is not None:
-            return self.z[i]
+            return self.z(iv(i) if isinstance(i, int) else i)
         return z3.If(self.c, self.x[i], self.y[i])
 
     def get_id(self):
@@ -63,8 +63,19 @@ class Arr:
         return str(self.z) if self.z is not None else f"ite({self.c},{self.x},{self.y})"
 
 
+ARR_IDS = set()
+
+
+def _mk_fn(name):
+    """the code points of a string value: an uninterpreted function Int -> Int (no array
+    theory: only reads occur, so extensionality and store axioms would be pure overhead)"""
+    f = z3.Function(name, I, I)
+    ARR_IDS.add(f.get_id())
+    return f
+
+
 def arr_const(name):
-    return Arr(z3.Const(name, ARR))
+    return Arr(_mk_fn(name))
 
 
 def arr_ite(c, x, y):
@@ -74,7 +85,7 @@ def arr_ite(c, x, y):
 
 
 def fresh_arr(p="A"):
-    return Arr(z3.Const(f"{p}!{next(_cnt)}", ARR))
+    return Arr(_mk_fn(f"{p}!{next(_cnt)}"))
 
 
 def iv(n):
@@ -107,7 +118,7 @@ class QFact:
     def quant(self):
         if self._q is None:
             body = self.fn(J)
-            self._q = z3.ForAll([J], body, patterns=[l[J] for l in self.arr.leaves()] + [IDX(J)])
+            self._q = z3.ForAll([J], body, patterns=[l(J) for l in self.arr.leaves()] + [IDX(J)])
         return self._q
 
 
@@ -235,8 +246,8 @@ def _index_terms(fmls, seen, out):
         if i in seen:
             continue
         seen.add(i)
-        if z3.is_select(e):
-            ix = e.arg(1)
+        if z3.is_app(e) and e.num_args() == 1 and e.decl().get_id() in ARR_IDS:
+            ix = e.arg(0)
             out.setdefault(ix.get_id(), ix)
         stack.extend(e.children())
 
